@@ -95,6 +95,12 @@ type lpTr struct {
 	ntmp  int
 	ncond int
 	cache map[ast.Node][]string // loop statement → its (unindented) call lines: a loop reached twice (duplicated continuation) is one function
+	// hooks of translators built on this one (loops_dns.go); nil for the functions of Gen/Loops.lean
+	extTy          func(ty types.Type) string                     // more Go types
+	extExpr        func(e ast.Expr, b *lpBinds) (string, bool)    // more expression forms, asked first
+	extRoot        func(e ast.Expr) *types.Var                    // more assignment-target shapes
+	extCond        func(e ast.Expr, b *lpBinds) (string, bool)    // more condition forms, asked first
+	extCallAssigns func(c *ast.CallExpr, res map[*types.Var]bool) // variables a call writes (in/out arguments)
 }
 
 func lpRefuse(fs *token.FileSet, n ast.Node, format string, a ...interface{}) {
@@ -143,6 +149,11 @@ func lpIsBytes(ty types.Type) bool {
 
 // Lean type of a Go type, "" when unsupported
 func (t *lpTr) leanTy(ty types.Type) string {
+	if t.extTy != nil {
+		if s := t.extTy(ty); s != "" {
+			return s
+		}
+	}
 	if t.isLine(ty) {
 		return "GLine"
 	}
@@ -234,6 +245,9 @@ func (t *lpTr) rootVar(e ast.Expr) *types.Var {
 	case *ast.SelectorExpr:
 		return t.rootVar(x.X)
 	}
+	if t.extRoot != nil {
+		return t.extRoot(e)
+	}
 	return nil
 }
 
@@ -267,6 +281,9 @@ func (t *lpTr) assigned(n ast.Node) map[*types.Var]bool {
 				res[v] = true
 			}
 		case *ast.CallExpr:
+			if t.extCallAssigns != nil {
+				t.extCallAssigns(s, res)
+			}
 			if t.isCopy(s) && len(s.Args) == 2 {
 				if v := t.rootVar(s.Args[0]); v != nil {
 					res[v] = true
@@ -417,6 +434,11 @@ func (t *lpTr) lineField(sel *ast.SelectorExpr) (string, bool) {
 // a byte-sequence valued expression that can be read (Lean term of type Bytes)
 func (t *lpTr) bytesExpr(e ast.Expr, b *lpBinds) string {
 	e = paren(e)
+	if t.extExpr != nil {
+		if s, ok := t.extExpr(e, b); ok {
+			return s
+		}
+	}
 	if cv, ok := t.constOf(e); ok && cv.Kind() == constant.String {
 		return lpBytesLit(constant.StringVal(cv))
 	}
@@ -562,6 +584,11 @@ var lpArith = map[token.Token]string{token.ADD: "+", token.SUB: "-", token.MUL: 
 // a value expression (integers, bools as Bool terms, byte slices)
 func (t *lpTr) expr(e ast.Expr, b *lpBinds) string {
 	e = paren(e)
+	if t.extExpr != nil {
+		if s, ok := t.extExpr(e, b); ok {
+			return s
+		}
+	}
 	lt := t.tyOf(e)
 	if cv, ok := t.constOf(e); ok {
 		switch lt {
@@ -843,6 +870,11 @@ func (t *lpTr) argExpr(a ast.Expr, b *lpBinds) string {
 
 func (t *lpTr) cond(e ast.Expr, b *lpBinds) string {
 	e = paren(e)
+	if t.extCond != nil {
+		if s, ok := t.extCond(e, b); ok {
+			return s
+		}
+	}
 	switch x := e.(type) {
 	case *ast.BinaryExpr:
 		switch x.Op {
